@@ -241,9 +241,22 @@ class Result:
                 base = func.split(" (")[0]
                 if k not in used and base not in self.current_funcs and base.split(".")[-1] not in self.current_funcs:
                     free[k] = (rule, rest)
+            # the mirror image: the construct was moved out of its (still existing) function into a helper that is not part of the reference
+            # tree - the listed entry is no longer reported under its key, and the same rule / shape / signature comes from a new function
+            base_funcs = getattr(self, "baseline_funcs", None)
+            free_new = {}
+            if base_funcs is not None:
+                free_new = {k: (parts(k)[0], parts(k)[2]) for k in known if k not in used and k not in free}
             still = []
             for f in new:
                 rest_f = f"{f.shape}{'|' + f.sig if f.sig else ''}"
+                fb = f.func.split(" (")[0]
+                if free_new and fb not in base_funcs and fb.split(".")[-1] not in base_funcs:
+                    hit = next((k for k, (rule, rest) in free_new.items() if rule == f.rule and rest == rest_f), None)
+                    if hit is not None:
+                        del free_new[hit]
+                        listed.append((f, known[hit]))
+                        continue
                 hit = next((k for k, (rule, rest) in free.items() if rule == f.rule and rest == rest_f), None)
                 if hit is None and f.sig:
                     # merging a function into its caller substitutes arguments: the spelling changes, the semantic signature does not
